@@ -532,15 +532,22 @@ def web_wiring():
     nb = fn_block(lib, 'new')
     m = re.search(r'ServerState\s*\{(.*?)\}\s*\)', nb, re.S)
     if not m: raise PE('ServerState literal')
+    # simple `let NAME = EXPR;` bindings of `new` are inlined (building the state through locals changes nothing)
+    nlets = {lm.group(1): lm.group(2) for lm in re.finditer(r'\blet\s+(\w+)\s*=\s*((?:(?!\blet\b)[^;{])*?);', nb, re.S)}
     fields = []
     for part in re.split(r',(?![^()]*\))', m.group(1)):
         part = part.strip()
         if not part: continue
         if ':' in part:
-            f, e = part.split(':', 1); fields.append((f.strip(), norm(e)))
+            f, e = part.split(':', 1); f, e = f.strip(), e.strip()
         else:
-            fields.append((part, part))
-    before = norm(nb[:nb.index('Self')])
+            f, e = part, part
+        if e in nlets and e != f or (e == f and f in nlets): e = nlets[e]
+        fields.append((f, norm(e)))
+    pre = nb[:nb.index('Self')]
+    pre = re.sub(r'\blet\s+(\w+)\s*=\s*((?:(?!\blet\b)[^;{])*?);', '', pre, flags=re.S)
+    pre = re.sub(r'\blet\s+\w+\s*=\s*Arc::new\(\s*ServerState\s*\{.*?\}\s*\)\s*;', '', pre, flags=re.S)
+    before = norm(pre)
     new_w = [('before', before)] + [('ServerState.' + f, e) for f, e in fields]
     cb = fn_block(lib, 'config')
     m = re.search(r'web::scope\(\s*"([^"]*)"\s*\)', cb)
@@ -553,6 +560,7 @@ def web_wiring():
         elif ch in ')]}':
             if depth == 0: break
             depth -= 1
+        elif ch == ';' and depth == 0: break      # the chain is a statement of its own (bound to a local)
         j += 1
     # simple `let NAME = EXPR;` bindings of `config` before the registration are inlined into the call chain (hoisting an
     # argument into a local does not change what is registered)
@@ -580,6 +588,13 @@ def web_wiring():
         hs = re.findall(r'\.insert_header\(\(\s*"([^"]*)"\s*,\s*"([^"]*)"\s*\)\)', dm.group(1))
         scope.append(('default_service', '404:' + ';'.join(f'{k}={v}' for k, v in hs)))
         tail = tail[:dm.start()] + tail[dm.end():]
+    # `let NAME = web::scope("")…; cfg.service(NAME);` is `cfg.service(web::scope("")…);`
+    hm = re.search(r'\blet\s+(\w+)\s*=\s*$', head.rstrip())
+    if hm:
+        tm = re.match(r'\s*;\s*cfg\s*\.\s*service\s*\(\s*' + hm.group(1) + r'\s*\)\s*;', tail)
+        if tm:
+            head = head.rstrip()[:hm.start()] + 'cfg.service('
+            tail = ');' + tail[tm.end():]
     other = norm(head) + '|' + norm(tail)
     scope.append(('around', other))
     ab = fn_block(mod, 'api_scope')
